@@ -28,6 +28,11 @@ impl Pl for u16 {
         *self as u32
     }
 }
+impl Pl for u32 {
+    fn sig(&self) -> u32 {
+        *self
+    }
+}
 impl Pl for u64 {
     fn sig(&self) -> u32 {
         (*self as u32) ^ ((*self >> 32) as u32)
